@@ -580,10 +580,39 @@ func StressDocs() []string {
 			"groups:\n- name: g\n  rules:\n  - alert: a\n    expr: up\n    annotations:\n      note: "+sc,
 		)
 	}
+	// lone CR line breaks (a line break for the YAML decoder, not for pint's line reader): the lines of keys and of
+	// their values drift apart below the CR, which is where checks that build a range from a key and a value go wrong
+	crBase := []string{
+		"- alert: Foo Is Down", "  expr: up{job=\"foo\"} == 0", "  for: 5m", "  annotations:", "    url: \"https://wiki.example.com/page\"",
+		"    summary: 'Instance {{ $labels.instance }} down'", "  labels:", "    severity: warning", "    func: '{{ $value | xxx }}'",
+		"    bar: 'Some {{$value}} value'", "    val: '{{ .Value|humanizeDuration }}'", "    zq: \"{{ $value }}\"", "- record: a b", "  expr: sum(up)", "  labels:", "    x y: z",
+	}
+	for k := 0; k < len(crBase)-1; k++ {
+		var b strings.Builder
+		for i, l := range crBase {
+			b.WriteString(l)
+			if i == k {
+				b.WriteString("\r")
+			} else {
+				b.WriteString("\n")
+			}
+		}
+		out = append(out, b.String(), "groups:\n- name: g\n  rules:\n"+indentText(b.String(), "  "))
+	}
 	for _, t := range HostileTemplates() {
 		out = append(out, "groups:\n- name: g\n  rules:\n  - alert: a\n    expr: sum(up) by (job) > 0\n    labels:\n      l: '"+strings.ReplaceAll(t, "'", "''")+"'\n    annotations:\n      a: '"+strings.ReplaceAll(t, "'", "''")+"'\n")
 	}
 	return out
+}
+
+func indentText(s, ind string) string {
+	var b strings.Builder
+	for _, l := range strings.SplitAfter(s, "\n") {
+		if l != "" {
+			b.WriteString(ind + l)
+		}
+	}
+	return b.String()
 }
 
 // HostileTemplates: alert templates chosen to stress pint's template analysis (variable aliasing, cycles, nesting).
